@@ -87,6 +87,23 @@ UNITS = {
             I(RAW, r'^impl < T , A : Allocator > RawTable < T , A >$', 'insert', impl='RawTable<T>', key='RawTable::insert'),
         ],
     ),
+    # C04 / C02: the scope-guard closure of rehash_in_place (what runs when the hasher panics)
+    'guard': dict(
+        widths=[16, 8],
+        prelude='preludes/ctrl.rs',
+        prelude_extra='preludes/guard.rs',
+        specs=['contracts/ctrl.vspec', 'contracts/guard.vspec'],
+        lemmas=['lemmas/ctrl_lemmas.rs', 'lemmas/mask_lemmas.rs', 'lemmas/probe_lemmas.rs', 'lemmas/loop_lemmas.rs', 'lemmas/guard_lemmas.rs'],
+        extra='guard_rules',
+        items=[
+            I(RAW, None, 'bucket_mask_to_capacity'),
+            I(RAW, r'^impl RawTableInner$', 'buckets', impl='RawTableInner'),
+            I(RAW, r'^impl RawTableInner$', 'set_ctrl', impl='RawTableInner'),
+            dict(I(RAW, r'^impl RawTableInner$', 'rehash_in_place', impl='RawTableInner', key='rehash_in_place::guard'),
+                 closure='guard(self, move |self_| {',
+                 new_sig='unsafe fn rehash_in_place_guard(self_: &mut RawTableInner, drop: Option<DropFn>, size_of: usize)'),
+        ],
+    ),
     # C08: the three cases of RawTable::shrink_to against the contracts of its callees
     'shrink': dict(
         widths=[16, 8],
@@ -146,6 +163,7 @@ def pow2_assert_rule(toks, i, out, hit):
 
 
 _HITS = {}
+_FLAGS = {}
 
 
 def _args_until_close(toks, k):
@@ -177,7 +195,7 @@ def ctrl_rules(toks, i, out, hit):
 
     # R7: `for PAT in EXPR { BODY }` -> the Rust reference's own desugaring
     #     `let mut it_ = EXPR.into_iter(); loop { match it_.next() { Some(PAT) => { BODY } None => break, } }`
-    if t.kind == 'id' and t.text == 'for' and out and out[-1].text in (';', '{', '}'):
+    if t.kind == 'id' and t.text == 'for' and out and out[-1].text in (';', '{', '}') and not _FLAGS.get('no_r7'):
         k = i + 1
         while k < n and not (toks[k].kind == 'id' and toks[k].text == 'in'):
             k += 1
@@ -238,11 +256,12 @@ def ctrl_rules(toks, i, out, hit):
                 return close_outer + 1
     # *self.ctrl(E) ...
     recv_len = 0
-    if t.text == '*' and seq(i + 1, 'self', '.', 'ctrl', '('):
+    if t.text == '*' and (seq(i + 1, 'self', '.', 'ctrl', '(') or seq(i + 1, 'self_', '.', 'ctrl', '(')):
         recv_len = 1
     elif t.text == '*' and seq(i + 1, 'self', '.', 'table', '.', 'ctrl', '('):
         recv_len = 3
-    if recv_len and not (out and (out[-1].kind in ('id', 'num') or out[-1].text in (')', ']'))):
+    _KW = ('if', 'while', 'match', 'return', 'in', 'let', 'else', 'mut', 'move', 'unsafe', 'loop', 'break')
+    if recv_len and not (out and ((out[-1].kind in ('id', 'num') and out[-1].text not in _KW) or out[-1].text in (')', ']'))):
         recv = [extract.T(x.text, '') for x in toks[i + 1:i + 1 + recv_len]]
         close, args = _args_until_close(toks, i + 3 + recv_len)
         args = extract.rewrite(args, set(), _HITS, ctrl_rules)
@@ -274,6 +293,21 @@ def ctrl_rules(toks, i, out, hit):
         hit('R5_ctrl_pointer_read_to_indexed_read')
         return close + 1
     return None
+
+
+def guard_rules(toks, i, out, hit):
+    """unit `guard`: R5/R6 as in unit ctrl but native `for` over ranges (no R7), plus
+    R8b: a call through the captured drop function pointer `drop(E)` -> `drop.call(E)`."""
+    t = toks[i]
+    if t.kind == 'id' and t.text == 'drop' and i + 1 < len(toks) and toks[i + 1].text == '(' and out and out[-1].text in ('{', ';', '}'):
+        out.extend([extract.T('drop', t.gap), extract.T('.', ''), extract.T('call', '')])
+        hit('R8b_fn_pointer_call_to_shim_call')
+        return i + 1
+    _FLAGS['no_r7'] = True
+    try:
+        return ctrl_rules(toks, i, out, hit)
+    finally:
+        _FLAGS['no_r7'] = False
 
 
 def grow_rules(toks, i, out, hit):
@@ -314,7 +348,9 @@ def shrink_rules(toks, i, out, hit):
 
 def generate(unit_name, width, outdir):
     u = UNITS[unit_name]
-    specs = extract.parse_vspec(os.path.join(VERIF, u['specs']))
+    specs = {}
+    for sf in (u['specs'] if isinstance(u['specs'], list) else [u['specs']]):
+        specs.update(extract.parse_vspec(os.path.join(VERIF, sf)))
     hits = _HITS
     hits.clear()
     rules = set(u.get('rules', []))
@@ -326,8 +362,12 @@ def generate(unit_name, width, outdir):
         spec = specs.get(it['key'])
         if spec is None:
             raise ExtractError('no contract for %s in %s' % (it['key'], u['specs']))
-        item = extract.extract_fn(os.path.join(REPO, it['file']), it['ctx'], it['fn'], spec, rules, hits,
-                                  nth=it['nth'], extra=extra, rename=it['rename'])
+        if it.get('closure'):
+            item = extract.extract_closure(os.path.join(REPO, it['file']), it['ctx'], it['fn'], it['closure'], it['new_sig'],
+                                           spec, rules, hits, nth=it['nth'], extra=extra)
+        else:
+            item = extract.extract_fn(os.path.join(REPO, it['file']), it['ctx'], it['fn'], spec, rules, hits,
+                                      nth=it['nth'], extra=extra, rename=it['rename'])
         attr = spec.get('attr', '')
         gen = item['generated']
         hdr = '// extracted from %s:%d-%d sha256=%s\n' % (it['file'], item['line0'], item['line1'], item['sha'][:16])
